@@ -16,7 +16,7 @@ use serde_json::{json, Value};
 use std::sync::{Arc, Mutex};
 use std::time::Duration;
 
-fn enabled(node: &Node, h: &[u8], mode: &str, faults: bool, max_new: usize, depth: usize) -> Vec<Value> {
+fn enabled(node: &Node, h: &[u8], mode: &str, faults: bool, max_new: usize, depth: usize, salt: usize) -> Vec<Value> {
     let mut ev = vec![];
     let hn = node.hashes.get(h);
     for c in node.calls.iter() {
@@ -42,7 +42,10 @@ fn enabled(node: &Node, h: &[u8], mode: &str, faults: bool, max_new: usize, dept
                 ev.push(json!({"e": "payfin", "c": c.local_id, "out": "pending"}));
                 ev.push(json!({"e": "payfin", "c": c.local_id, "out": "failed_warn"}));
                 if !busy { ev.push(json!({"e": "payfin", "c": c.local_id, "out": "failed"})); }
-                ev.push(json!({"e": "payfin", "c": c.local_id, "out": "error", "err": "210"}));
+                // the pay command ends with an rpc error: every code pay documents (200-210), varied with the depth
+                let pay_errs = ["200", "201", "202", "203", "204", "205", "206", "207", "208", "209", "210", "-1"];
+                // three codes per state, rotated with the depth and with the configuration's salt, so that every code meets every situation
+                for j in 0..3 { ev.push(json!({"e": "payfin", "c": c.local_id, "out": "error", "err": pay_errs[(depth + salt + 4 * j) % pay_errs.len()]})); }
             }
             _ => {}
         }
@@ -90,7 +93,7 @@ fn canon_reply(node: &Node, h: &[u8], r: &Option<Reply>) -> Value {
 
 /// Runs one path. `choices[i]` selects among the events enabled at step i (0 beyond the given path).
 /// Returns (trace, branching factors along the path).
-fn run_path(mode: &str, parts: &[String], choices: &[usize], faults: bool, max_new: usize, max_len: usize, bolt11: &str) -> (Value, Vec<usize>) {
+fn run_path(mode: &str, parts: &[String], choices: &[usize], faults: bool, max_new: usize, max_len: usize, bolt11: &str, salt: usize) -> (Value, Vec<usize>) {
     let node: Shared = Arc::new(Mutex::new(Node::default()));
     let pre = world::preimage(0);
     let h = world::sha(&pre);
@@ -100,7 +103,8 @@ fn run_path(mode: &str, parts: &[String], choices: &[usize], faults: bool, max_n
         let hn = n.hashes.entry(h.clone()).or_default();
         for (k, p) in parts.iter().enumerate() {
             let st = match p.as_str() { "pend" => PStat::Pend, "fail" => PStat::Failed(203), _ => PStat::Done(pre.clone()) };
-            hn.parts.push(Part { groupid: 0, partid: k as u64, status: st });
+            // parts of earlier attempts live in different sendpay groups (0 and 2; the pay command of this run uses group 1)
+            hn.parts.push(Part { groupid: if k % 2 == 0 { 0 } else { 2 }, partid: k as u64, status: st });
         }
     }
     let rt = tokio::runtime::Builder::new_current_thread().enable_time().start_paused(true).build().unwrap();
@@ -143,7 +147,7 @@ fn run_path(mode: &str, parts: &[String], choices: &[usize], faults: bool, max_n
             }
             if let Some(last) = steps.last_mut() { let l: &mut Value = last; l["out"] = json!(out); } else { steps.push(json!({"out": out, "start": true})); events.push(json!({"e": "start"})); }
             if result.lock().unwrap().is_some() || step >= max_len { break; }
-            let en = { let n = node.lock().unwrap(); enabled(&n, &h, mode, faults, max_new, events.len()) };
+            let en = { let n = node.lock().unwrap(); enabled(&n, &h, mode, faults, max_new, events.len(), salt) };
             if en.is_empty() { break; }
             let choice = choices.get(step).cloned().unwrap_or(0).min(en.len() - 1);
             factors.push(en.len());
@@ -187,7 +191,7 @@ fn run_path(mode: &str, parts: &[String], choices: &[usize], faults: bool, max_n
                             "pending" => Reply::Pay { status: "pending".into(), preimage: vec![0u8; 32], warn: false },
                             "failed_warn" => Reply::Pay { status: "failed".into(), preimage: vec![0u8; 32], warn: true },
                             "failed" => Reply::Pay { status: "failed".into(), preimage: vec![0u8; 32], warn: false },
-                            _ => Reply::Err(ErrKind::Code(210)),
+                            _ => Reply::Err(ErrKind::Code(ev["err"].as_str().and_then(|x| x.parse::<i32>().ok()).unwrap_or(210))),
                         };
                         n.calls[ci].reply = Some(rep); n.calls[ci].status = CStat::Replied;
                     }
@@ -216,13 +220,14 @@ pub fn run() {
         let faults = ex["faults"].as_bool().unwrap_or(false);
         let max_new = ex["max_new"].as_u64().unwrap_or(1) as usize;
         let max_len = ex["max_len"].as_u64().unwrap_or(40) as usize;
+        let salt = ex["salt"].as_u64().unwrap_or(0) as usize;
         let mut rng = SplitMix(ex["seed"].as_u64().unwrap_or(1));
         let mut traces = vec![];
         // replay-based DFS with an odometer over the choice vector; switches to random paths when the space is too large
         let mut path: Vec<usize> = vec![];
         let mut exhaustive = true;
         loop {
-            let (t, factors) = run_path(&mode, &parts, &path, faults, max_new, max_len, &bolt11);
+            let (t, factors) = run_path(&mode, &parts, &path, faults, max_new, max_len, &bolt11, salt);
             traces.push(t);
             if traces.len() >= max_paths { exhaustive = false; break; }
             // next path: increment the last incrementable position
@@ -241,7 +246,7 @@ pub fn run() {
             let extra = max_paths / 2;
             for _ in 0..extra {
                 let p: Vec<usize> = (0..max_len).map(|_| rng.below(8) as usize).collect();
-                let (t, _) = run_path(&mode, &parts, &p, faults, max_new, max_len, &bolt11);
+                let (t, _) = run_path(&mode, &parts, &p, faults, max_new, max_len, &bolt11, salt);
                 traces.push(t);
             }
         }
